@@ -27,6 +27,38 @@ pub proof fn lemma_counter_split(c: u128)
         / 0x1_0000_0000_0000_0000u128) by (bit_vector);
 }
 
+// ---- compress: work vector initialisation ---------------------------------------------------------
+/// the code's `tv[12] = st[0] ^ IV[4]` ... is the RFC's v[12] ^= t mod 2^64, v[13] ^= t >> 64, v[14] ^= 0xFF..FF if f
+pub proof fn lemma_init_work(h: Seq<u64>, t0: u64, t1: u64, f0: u64, f1: u64, v: Seq<u64>)
+    requires
+        h.len() == 8,
+        v.len() == 16,
+        forall|i: int| 0 <= i < 8 ==> v[i] == h[i],
+        v[8] == blake2b_iv(0) && v[9] == blake2b_iv(1) && v[10] == blake2b_iv(2) && v[11] == blake2b_iv(3),
+        v[12] == t0 ^ blake2b_iv(4),
+        v[13] == t1 ^ blake2b_iv(5),
+        v[14] == f0 ^ blake2b_iv(6),
+        v[15] == f1 ^ blake2b_iv(7),
+        f1 == 0,
+        f0 == 0 || f0 == 0xFFFF_FFFF_FFFF_FFFFu64,
+    ensures
+        v == init_work(h, counter_val(t0, t1), f0 != 0),
+{
+    let t = counter_val(t0, t1);
+    assert(t % pow2_64() == t0 as nat);
+    assert((t / pow2_64()) % pow2_64() == t1 as nat);
+    let i4 = blake2b_iv(4);
+    let i5 = blake2b_iv(5);
+    let i6 = blake2b_iv(6);
+    let i7 = blake2b_iv(7);
+    assert(t0 ^ i4 == i4 ^ t0) by (bit_vector);
+    assert(t1 ^ i5 == i5 ^ t1) by (bit_vector);
+    assert(0u64 ^ i6 == i6) by (bit_vector);
+    assert(0xFFFF_FFFF_FFFF_FFFFu64 ^ i6 == i6 ^ 0xFFFF_FFFF_FFFF_FFFFu64) by (bit_vector);
+    assert(0u64 ^ i7 == i7) by (bit_vector);
+    assert(v =~= init_work(h, t, f0 != 0));
+}
+
 // ---- C08: buffering / held-back last block ------------------------------------------------------
 /// k blocks taken from d, compressed with f = FALSE, counter running from t: what the two loops of `update` do
 pub open spec fn absorb_from(h: Seq<u64>, t: nat, d: Seq<u8>, k: nat) -> Seq<u64>
